@@ -31,7 +31,7 @@ class C16(Check):
                   "PolyhedralTerm.rename_variable, IoContract.rename_variable (generated interface code, constructor re-simplification) and rename_variables; structural "
                   "correspondence; exact certified judge of the two equivalences against an independent substitution.")
     lean_modules = ["Pacti.Props.C16"]
-    theorems = ["Pacti.C16.term_rename_sem", "Pacti.C16.contract_rename_sem", "Pacti.C16.rename_absent_sem", "Pacti.C16.rename_iface_in",
+    theorems = ["Pacti.C16.term_rename_sem", "Pacti.C16.contract_rename_sem", "Pacti.C16.rename_absent_sem", "Pacti.C16.rename_self_sem", "Pacti.C16.rename_iface_in",
                 "Pacti.C16.rename_iface_out", "Pacti.C16.rename_rejects", "Pacti.C16.rename_fresh_back_iface", "Pacti.C16.rename_fresh_back_sem",
                 "Pacti.C16.renameAll_is_fold"]
     quick_n = 1200
